@@ -1081,6 +1081,82 @@ def run_front(ctx):
             ctx.disagree(desc, status, ans)
 
 
+
+def run_nonfinite(ctx):
+    """Element-wise * and / on IEEE special values (0, -0, inf, -inf, nan in the operands):
+    outside the exact model, but "equal the entry-wise result computed independently" still
+    has a definite meaning - NumPy's entry-wise result on plain copies of the arrays. In
+    particular x / x (the SAME object as dividend and divisor) is nan, not 1, where x is 0 or
+    non-finite. Oracle only."""
+    import odl
+    rng = ctx.rng
+    spaces = [('rn', odl.rn(7)), ('rn-f32', odl.rn(6, dtype='float32')), ('cn', odl.cn(5)),
+              ('rn2d', odl.rn((3, 4))), ('discr', odl.uniform_discr(0, 1, 8)),
+              ('power', odl.ProductSpace(odl.rn(4), 2)), ('rn120', odl.rn(120))]
+    specials = [0.0, -0.0, np.inf, -np.inf, np.nan, 1.0, -2.5]
+
+    def mk(space):
+        def leaf(sp):
+            a = np.array([rng.choice(specials) for _ in range(sp.size)], dtype=float)
+            a = a.reshape(sp.shape)
+            if np.issubdtype(sp.dtype, np.complexfloating):
+                b = np.array([rng.choice(specials) for _ in range(sp.size)], dtype=float)
+                with np.errstate(all='ignore'):
+                    a = a + 1j * b.reshape(sp.shape)
+            return sp.element(a.astype(sp.dtype))
+        if isinstance(space, odl.ProductSpace):
+            return space.element([leaf(p) for p in space])
+        return leaf(space)
+
+    def arr(e):
+        return np.array(flat(e), copy=True)
+
+    # (+ and - are NOT included: they are a*x1 + b*x2 evaluated by the size-dependent dispatch,
+    # whose IEEE result on inf/nan legitimately depends on the formula used - e.g. x - x is an
+    # exact zero assignment in the aliased leaf, (1+0j)*(-inf-2.5j) has a nan imaginary part)
+    ops = [('div', lambda x, y: x / y, np.divide), ('mul', lambda x, y: x * y, np.multiply),
+           ('sp_divide', lambda x, y: x.space.divide(x, y), np.divide),
+           ('sp_multiply', lambda x, y: x.space.multiply(x, y), np.multiply)]
+
+    def idiv(x, y):
+        x /= y
+        return x
+
+    def imul(x, y):
+        x *= y
+        return x
+    ops += [('idiv', idiv, np.divide), ('imul', imul, np.multiply)]
+    for sname, space in spaces:
+        for name, act, ref in ops:
+            for same in (False, True):
+                x = mk(space)
+                y = x if same else mk(space)
+                X, Y = arr(x), arr(y)
+                with np.errstate(all='ignore'):
+                    exp = ref(X, Y)
+                    try:
+                        res = act(x, y)
+                        got = arr(res)
+                        status = 'ok'
+                    except Exception as e:  # noqa
+                        status = 'err:' + type(e).__name__ + ':' + str(e)[:100]
+                        got = None
+                ctx.case(('nonfinite', sname, name, same))
+                ctx.hit('nonfinite/{}/{}'.format(name, 'same-object' if same else 'distinct'))
+                if status != 'ok' or not np.array_equal(got, exp, equal_nan=True):
+                    bad = None if got is None else [i for i in range(len(exp))
+                                                    if not np.array_equal(got[i:i + 1], exp[i:i + 1],
+                                                                          equal_nan=True)]
+                    ctx.violation(
+                        'nonfinite op={} space={} operands={}'.format(
+                            name, sname, 'same-object' if same else 'distinct'),
+                        status if got is None else
+                        'entry {}: x={} y={} gives {} but the entry-wise NumPy result is {}'.format(
+                            bad[0], X[bad[0]], Y[bad[0]], got[bad[0]], exp[bad[0]]),
+                        {'kind': 'nonfinite', 'space': sname, 'op': name, 'same': same,
+                         'x': [str(v) for v in X[:12]], 'y': [str(v) for v in Y[:12]]})
+
+
 def run_special(ctx):
     """Scalar zero divisors (must raise ZeroDivisionError, operand untouched) and integer
     spaces with non-integer field scalars (result not representable: must not be silently
@@ -1267,6 +1343,7 @@ def run(ctx, deep=False):
     # --- malformed calls
     run_front(ctx)
     run_special(ctx)
+    run_nonfinite(ctx)
     # --- product-space lincomb, all alias patterns
     pbatch, plines = [], []
     for c in plincomb_cases(ctx):
